@@ -769,6 +769,26 @@ def run (s : St) : List Op → St × List Bool
     let rr := run r.1 rest
     (rr.1, r.2 :: rr.2)
 
+/-! ### restapi's libp2p identity (api/rest/config.go `loadLibp2pOptions`, `validateLibp2p`) on a fresh Config
+
+`none` = key absent or `""` (the loader skips it).  The key is decoded first, then the ID; `Validate`: if any of
+ID / key / libp2p_listen_multiaddress is set, all must be, and the ID must match the key.  `none` result = refused. -/
+def restLoad (i : Option IdTok) (k : Option KeyTok) (addr : Bool) : Option St :=
+  match k with
+  | some .badB64 => none
+  | some .badKey => none
+  | _ =>
+    match i with
+    | some .bad => none
+    | _ =>
+      let s : St := { id := (match i with | some (.id a) => some a | _ => none),
+                      key := (match k with | some (.key b) => some b | _ => none) }
+      if s.id.isSome || s.key.isSome || addr then (if s.id.isSome && s.key.isSome && addr && valid s then some s else none)
+      else some s
+
+/-- `toJSONConfig`: an unset ID / key is saved as `""` -/
+def restSave (s : St) : Option IdTok × Option KeyTok := (s.id.map .id, s.key.map .key)
+
 /-! ### the regenerated statement sequence of `applyIdentityJSON`, interpreted
 
 `harness/common/c15_util.go` reads the function body as a list of events; `interp` executes them.  Theorem
